@@ -15,11 +15,18 @@ def fq(a):
     return np.rint(np.clip(a, -1.3e5, 1.3e5) * S).astype(int).tolist()
 
 
-def fit_kde(D, w, G, cell, s, Q, fp, fs, reach=None):
+def fit_kde(D, w, G, cell, s, Q, fp, fs, reach=None, prior=None):
     from skmatter.neighbors import SparseKDE
     mp_ = {"cell_length": np.asarray(cell, float) / s} if len(cell) else None
     kde = SparseKDE(np.asarray(D, float) / s, np.asarray(w, float).copy(), metric_params=mp_, fpoints=fp, fspread=fs)
     Gf = np.asarray(G, float) / s
+    if prior is not None:
+        # history: the same estimator object was fitted on another grid of the same size and queried before
+        try:
+            kde.fit(np.asarray(prior, float) / s)
+            kde.score_samples(np.asarray(Q, float) / s)
+        except Exception:
+            pass
     if reach is None:
         kde.fit(Gf)
     else:
@@ -93,7 +100,11 @@ def case(cid, rng):
     try:
         with warnings.catch_warnings():
             warnings.simplefilter("ignore")
-            kde, ld = fit_kde(D, w, G, cell, s, Q, fp, fs, reach=c["reach"])
+            prior = None
+            if len(uniq) >= 2 * ng and rng.random() < 0.35:
+                prior = uniq[ng:2 * ng]
+                c["kind"] = kind + "+refit"
+            kde, ld = fit_kde(D, w, G, cell, s, Q, fp, fs, reach=c["reach"], prior=prior)
             H = np.asarray(kde.bandwidth_, float)
             c["finite"] = bool(np.all(np.isfinite(H)) and np.all(np.isfinite(ld)))
             if not c["finite"]:
@@ -117,11 +128,14 @@ def case(cid, rng):
             try:
                 Hinv = np.array([np.linalg.inv(h) for h in H])                      # witnesses, verified by the specification
                 logdet = np.array([np.linalg.slogdet(h)[1] for h in H])
-                wn = np.asarray(kde.weights, float)
-                gwn = np.asarray(kde._sample_weights, float)
+                # weights of the documented mixture from the INPUTS (normalised caller weights, summed over the reported cells);
+                # the logarithms are witnesses verified by the specification
+                lab1 = [int(v) + 1 for v in kde._sample_labels_]
+                w_in = np.asarray(w, float) / float(np.sum(w))
+                gw_in = np.array([w_in[[l == j + 1 for l in lab1]].sum() for j in range(ng)])
                 c["mix"] = {"id": cid + "-mix", "dim": dim, "cell": fq(np.asarray(cell, float) / s) if len(cell) else [],
-                            "D": fq(D / s), "G": fq(G / s), "Q": fq(Q / s), "w": fq(wn), "nlw": fq(-np.log(wn)),
-                            "gw": fq(gwn), "nlgw": fq(-np.log(np.maximum(gwn, 1e-300))), "labels": [int(v) + 1 for v in kde._sample_labels_],
+                            "D": fq(D / s), "G": fq(G / s), "Q": fq(Q / s), "wi": [int(v) for v in w], "nlw": fq(-np.log(w_in)),
+                            "nlgw": fq(-np.log(np.maximum(gw_in, 1e-300))), "labels": lab1,
                             "H": [fq(h) for h in H], "Hinv": [fq(h) for h in Hinv], "logdet": fq(logdet),
                             "kdecut": fq([kde.kdecut_squared])[0], "score": fq(ld)}
             except Exception:
